@@ -512,10 +512,10 @@ fn main() {
                 let locals = declared_schema(ops);
                 let texts: Vec<String> = o.scalars.iter().filter(|(k, _)| b.scalar_names.contains(k) || BUILTIN_SCALARS.contains(&k.as_str()))
                     .flat_map(|(_, c)| cfg_texts(c).into_iter().map(|s| s.to_string()).collect::<Vec<_>>()).collect();
-                name_cases.push((format!("CKeyword {}", coq_list(&locals, |l| coq_str(l))),
+                name_cases.push((format!("NKeyword {}", coq_list(&locals, |l| coq_str(l))),
                                  json!({"kind": "keyword-names", "schema": b.text, "declared": locals})));
-                name_cases.push((format!("CCapture {} {}", coq_list(&locals, |l| coq_str(l)), coq_list(&texts, |l| coq_str(l))),
-                                 json!({"kind": "scalar-identifier-capture", "schema": b.text, "options": o.json(), "declared": locals})));
+                name_cases.push((format!("NCapture {} {}", coq_list(&locals, |l| coq_str(l)), coq_list(&texts, |l| coq_str(l))),
+                                 json!({"kind": "scalar-identifier-capture", "schema": b.text, "options": o.json(), "declared": locals, "scalar_texts": texts})));
             }
             sruns.push(format!("({}, {})", o.coq(), term));
             sj.push(json!({"options": o.json(), "result": j}));
@@ -528,7 +528,7 @@ fn main() {
             let (term, j, rtext) = run_resolvers(&doc, &o, plugins);
             if let (Some((_, ops)), true) = (&rtext, valid) {
                 let aliases = declared_resolvers(ops);
-                name_cases.push((format!("CReserved {} {}", coq_list(&aliases, |l| coq_str(l)), o.coq()),
+                name_cases.push((format!("NReserved {} {}", coq_list(&aliases, |l| coq_str(l)), o.coq()),
                                  json!({"kind": "resolver-file-names", "schema": b.text, "options": o.json(), "declared": aliases})));
             }
             bump(if j == json!("ok") { "resolver-run:ok" } else { "resolver-run:panic" });
@@ -544,8 +544,18 @@ fn main() {
         cases.push(format!("CDoc {} {} [{}] [{}]", coq_bool(valid), ast_coq::tsdoc(&doc), sruns.join("; "), rruns.join("; ")), d);
     }
     // the declared-name cases are tiny; they follow the documents
-    for _ in 0..name_cases.len() { bump("name-cases"); }
-    for (t, d) in name_cases { cases.push(t, d); }
+    for _ in 0..name_cases.len() { bump("name-checks"); }
+    // homogeneous batches (one kind of check per case), so that each failing batch maps to one finding class
+    name_cases.sort_by_key(|(t, _)| t.split(' ').next().unwrap_or("").to_string());
+    let mut batches: Vec<&[(String, J)]> = vec![];
+    let mut start = 0;
+    for i in 1..=name_cases.len() {
+        let boundary = i == name_cases.len() || name_cases[i].0.split(' ').next() != name_cases[start].0.split(' ').next() || i - start == 250;
+        if boundary { batches.push(&name_cases[start..i]); start = i; }
+    }
+    for chunk in batches {
+        cases.push(format!("CNames {}", coq_list(chunk, |(t, _)| t.clone())), json!({"kind": "names", "items": chunk.iter().map(|(_, d)| d.clone()).collect::<Vec<_>>()}));
+    }
     // jsdoc on its own: fixed pool + random strings over an adversarial alphabet, packed 70 per case
     let n_js = if thorough { 7000 } else { 1050 };
     let mut batch: Vec<(String, String)> = vec![]; let mut batch_j: Vec<J> = vec![];
